@@ -308,3 +308,47 @@ Proof.
     + split; vm_compute; discriminate.
     + vm_compute; discriminate.
 Qed.
+
+(** * C08_saturated_second_never_lowers_allowance : the cold state (980 tokens), next second, 50 passed (>= 33):
+      930 tokens are left, still above the warning line 500 *)
+Lemma w08_cold_thr_pos : (0 < B2R 53 1024 (wu_thr w08_cold))%R.
+Proof. w08_conc (wu_thr w08_cold). lra. Qed.
+Lemma w08_cold_slope_nonneg : (0 <= B2R 53 1024 (wu_slope w08_cold))%R.
+Proof. w08_conc (wu_slope w08_cold). lra. Qed.
+
+Example C08_saturated_second_never_lowers_allowance_premises_hold : exists w now pq u,
+  is_finite 53 1024 (wu_thr w) = true /\ (0 < B2R 53 1024 (wu_thr w))%R /\
+  is_finite 53 1024 (wu_slope w) = true /\ (0 <= B2R 53 1024 (wu_slope w))%R /\
+  wu_warning w <= wu_stored w /\ wu_stored w <= wu_max w /\
+  flt pq (ffloor (fdiv (wu_thr w) (f64_of_N (wu_cold w)))) = false /\
+  sync_token w now pq = WVal u /\ wu_warning w <= wu_stored u /\
+  is_finite 53 1024 (allowed_of w) = true /\ is_finite 53 1024 (allowed_of u) = true.
+Proof.
+  exists w08_cold, 23400, (f64_of_N 50), w08_drain_u.
+  split; [vm_compute; reflexivity|]. split; [exact w08_cold_thr_pos|].
+  split; [vm_compute; reflexivity|]. split; [exact w08_cold_slope_nonneg|].
+  split; [vm_compute; discriminate|]. split; [vm_compute; discriminate|].
+  split; [vm_compute; reflexivity|]. split; [exact w08_drain_sync|].
+  split; [vm_compute; discriminate|]. split; vm_compute; reflexivity.
+Qed.
+
+Example C08_saturated_second_never_lowers_allowance_instance :
+  fle (allowed_of w08_cold) (allowed_of w08_drain_u) = true.
+Proof.
+  apply (C08_saturated_second_never_lowers_allowance w08_cold 23400 (f64_of_N 50) w08_drain_u).
+  - vm_compute; reflexivity.
+  - exact w08_cold_thr_pos.
+  - vm_compute; reflexivity.
+  - exact w08_cold_slope_nonneg.
+  - vm_compute; discriminate.
+  - vm_compute; discriminate.
+  - vm_compute; reflexivity.
+  - exact w08_drain_sync.
+  - vm_compute; discriminate.
+  - vm_compute; reflexivity.
+  - vm_compute; reflexivity.
+Qed.
+
+(** strictly larger here *)
+Example w08_ramp_strict : flt (allowed_of w08_cold) (allowed_of w08_drain_u) = true.
+Proof. vm_compute. reflexivity. Qed.
